@@ -4,6 +4,20 @@ import Lean
     `discharged` and to reject any axiom outside {propext, Classical.choice, Quot.sound}. -/
 open Lean Elab Command
 
+/-- the same for every namespace below `NS` as well (generated instance files use one
+    sub-namespace per file) -/
+elab "#audit_rec " ns:ident : command => do
+  let env ← getEnv
+  let nsName := ns.getId
+  let mut names : Array Name := #[]
+  for (n, ci) in env.constants.toList do
+    if nsName.isPrefixOf n && n != nsName && !n.isInternal then
+      if let .thmInfo _ := ci then names := names.push n
+  for n in names.qsort (fun a b => a.toString < b.toString) do
+    let axs ← liftCoreM <| Lean.collectAxioms n
+    logInfo m!"AXIOMS {n} : {axs.qsort (fun a b => a.toString < b.toString)}"
+  logInfo m!"AUDIT {nsName} theorems={names.size}"
+
 elab "#audit_namespace " ns:ident : command => do
   let env ← getEnv
   let nsName := ns.getId
